@@ -9,7 +9,7 @@
    peers are exempt from the per-host count by design of the code.
    The models mirror /repo after the fix: commits 7026b86 (connmgr) and 1a05aed (server). *)
 From Coq Require Import ZArith List.
-From BHS Require Import Peers PeersProofs ConnMgr ConnMgrProofs.
+From BHS Require Import Peers PeersProofs ConnMgr ConnMgrProofs AddrSearch AddrSearchProofs.
 Import ListNotations.
 Open Scope Z_scope.
 
@@ -187,3 +187,36 @@ Print Assumptions C18_request_progress.
 Print Assumptions C18_replaces_closed.
 Print Assumptions C18_replaces_closed_any.
 Print Assumptions C18_script_states_reachable.
+
+(* ---- the outbound address selection (p2putil.NewAddressFunc, the connection manager's GetNewAddress) ----
+   The draws of the address manager are the environment: [picks] is the sequence it offers. *)
+
+(* what is returned was offered within 100 draws, is of a group no outbound peer is connected to, was not attempted
+   recently unless 30 draws were turned down, and listens on the default port unless 50 were *)
+Theorem C18_new_address_sound : forall picks used i c,
+  new_address picks used = Some (i, c) ->
+  (i < max_tries)%nat /\ nth_error picks i = Some (Some c) /\ used (c_group c) = false /\
+  (c_recent c = true -> (30 <= i)%nat) /\ (c_default_port c = false -> (50 <= i)%nat).
+Proof. exact new_address_sound. Qed.
+
+(* the filters relax: a candidate of a free group offered at a position where its filters no longer apply ends the
+   search with an address - so the outbound target stays reachable when every known address listens on another
+   port or was attempted a moment ago *)
+Theorem C18_new_address_relaxes : forall picks used k c,
+  (k < max_tries)%nat ->
+  nth_error picks k = Some (Some c) ->
+  (forall j, (j < k)%nat -> exists d, nth_error picks j = Some (Some d)) ->
+  used (c_group c) = false ->
+  (c_recent c = true -> (30 <= k)%nat) ->
+  (c_default_port c = false -> (50 <= k)%nat) ->
+  exists i d, new_address picks used = Some (i, d) /\ (i <= k)%nat.
+Proof. exact new_address_relaxes. Qed.
+
+(* ... and the group filter never does (by design) *)
+Theorem C18_new_address_group_never_relaxes : forall picks used,
+  (forall c, In (Some c) picks -> used (c_group c) = true) -> new_address picks used = None.
+Proof. exact new_address_group_never_relaxes. Qed.
+
+Print Assumptions C18_new_address_sound.
+Print Assumptions C18_new_address_relaxes.
+Print Assumptions C18_new_address_group_never_relaxes.
